@@ -163,22 +163,29 @@ QR_ITEMS = ("np_xyz", "np_xy", "np_z", "nfaces", "nedges", "weights_xyz",
 
 
 class Namer:
-    '''Maps the names PSyclone gives to function spaces and quadrature
-    arguments back to the metadata (the harness knows the names it chose for
-    the algorithm arguments; the stub uses field_<i>, op_<i>, cma_op_<i>).'''
+    '''Maps the names PSyclone derives from the algorithm-layer names back to
+    the metadata of ONE kernel.  For the call side `names` gives the names the
+    harness chose for this kernel's actual arguments, directions and
+    quadrature objects (c21_gen.names_for); the stub uses field_<i>, op_<i>,
+    cma_op_<i>, qr_<shape>.'''
 
-    def __init__(self, md, side):
+    def __init__(self, md, side, names=None):
         self.md = md
         self.side = side
         self.spaces = {}
-        names = []
-        for i, arg in enumerate(md["args"], 1):
-            if side == "stub":
-                names.append({"field": "field_", "op": "op_", "cma": "cma_op_",
-                              "scalar": "scalar_"}[arg["t"]] + str(i))
-            else:
-                names.append({"field": "f", "op": "op", "cma": "cm",
-                              "scalar": "sc"}[arg["t"]] + str(i))
+        if side == "stub":
+            argnames = [{"field": "field_", "op": "op_", "cma": "cma_op_",
+                         "scalar": "scalar_"}[arg["t"]] + str(i)
+                        for i, arg in enumerate(md["args"], 1)]
+            self.dirs, self.qrs = {}, {}
+        else:
+            if names is None:
+                from pv.c21_gen import names_for
+                names = names_for(md)
+            argnames = list(names["args"])
+            self.dirs = {v: str(i) for i, v in names["dir"].items()}
+            self.qrs = dict(names["qr"])
+        self.argnames = argnames
         for arg in md["args"]:
             for fs in (arg["fs"], arg["fs2"]):
                 if not fs:
@@ -187,7 +194,7 @@ class Namer:
                 d = re.match(r"^any_discontinuous_space_(\d+)$", fs)
                 if m or d:
                     pre = ("aspc" if m else "adspc") + (m or d).group(1) + "_"
-                    for n in names:
+                    for n in argnames:
                         self.spaces[pre + n] = fs
                 else:
                     self.spaces[fs] = fs
@@ -198,16 +205,49 @@ class Namer:
         return self.spaces[text]
 
     def shape(self, text):
-        '''qr_xyoz (stub) / qr<j> (call) -> shape.'''
+        '''qr_xyoz (stub) / name of the quadrature object (call) -> shape.'''
         if self.side == "stub":
             m = re.match(r"^qr_(xyoz|face|edge)$", text)
             if m:
                 return m.group(1)
-        else:
-            m = re.match(r"^qr(\d+)$", text)
-            if m and 1 <= int(m.group(1)) <= len(self.md["shapes"]):
-                return self.md["shapes"][int(m.group(1)) - 1]
+        elif text in self.qrs:
+            return self.qrs[text]
         raise Unsupported("quadrature name " + text)
+
+    def call_role(self, name):
+        '''Role of a call actual that is derived from one of this kernel's
+        algorithm arguments, or None.'''
+        if name in self.dirs:
+            return "direction", self.dirs[name], "", ""
+        for i, base in enumerate(self.argnames, 1):
+            if not name.startswith(base):
+                continue
+            arg = self.md["args"][i - 1]
+            rest = name[len(base):]
+            idx = str(i)
+            if arg["t"] == "scalar":
+                if rest == "":
+                    return "scalar", idx, "", ""
+            elif arg["t"] == "field":
+                m = re.match(r"^(?:_(\d+))?_data$", rest)
+                if m:
+                    return ("field", idx, arg["fs"],
+                            "v" + m.group(1) if m.group(1) else "")
+                m = re.match(r"^_(stencil_size|max_branch_length|"
+                             r"stencil_dofmap)(?:_\d+)?$", rest)
+                if m:
+                    return m.group(1), idx, "", ""
+            elif arg["t"] == "op":
+                if rest == "_proxy%ncell_3d":
+                    return "op_ncell_3d", idx, "", ""
+                if rest == "_local_stencil":
+                    return "op", idx, "", ""
+            else:
+                if rest == "_cma_matrix":
+                    return "cma_op", idx, "", ""
+                if rest.startswith("_") and rest[1:] in CMA_SCALARS:
+                    return "cma_" + rest[1:], idx, "", ""
+        return None
 
 
 def classify(name, namer):
@@ -228,25 +268,13 @@ def classify(name, namer):
             (r"^op_(\d+)$", "op"),
             (r"^cma_op_(\d+)$", "cma_op"),
             (r"^[ril]scalar_(\d+)$", "scalar")]
-    else:
-        pats = [
-            (r"^f(\d+)_stencil_size$", "stencil_size"),
-            (r"^f(\d+)_max_branch_length$", "max_branch_length"),
-            (r"^f(\d+)_stencil_dofmap$", "stencil_dofmap"),
-            (r"^dr(\d+)$", "direction"),
-            (r"^op(\d+)_proxy%ncell_3d$", "op_ncell_3d"),
-            (r"^op(\d+)_local_stencil$", "op"),
-            (r"^cm(\d+)_cma_matrix$", "cma_op"),
-            (r"^sc(\d+)$", "scalar")]
-    for pat, what in pats:
-        m = re.match(pat, name)
+        for pat, what in pats:
+            m = re.match(pat, name)
+            if m:
+                return what, m.group(1), "", ""
+        m = re.match(r"^cma_op_(\d+)_(%s)$" % "|".join(CMA_SCALARS), name)
         if m:
-            return what, m.group(1), "", ""
-    m = re.match(r"^(?:cma_op_|cm)(\d+)_(%s)$" % "|".join(CMA_SCALARS), name)
-    if m:
-        return "cma_" + m.group(2), m.group(1), "", ""
-    # field data
-    if side == "stub":
+            return "cma_" + m.group(2), m.group(1), "", ""
         m = re.match(r"^field_(\d+)_(\w+?)(?:_v(\d+))?$", name)
         if m and m.group(2) in namer.spaces:
             return ("field", m.group(1), namer.space(m.group(2)),
@@ -255,17 +283,12 @@ def classify(name, namer):
         if m and m.group(2) in namer.spaces:
             return "field", m.group(1), namer.space(m.group(2)), ""
     else:
-        m = re.match(r"^f(\d+)(?:_(\d+))?_data$", name)
-        if m:
-            idx = int(m.group(1))
-            if not 1 <= idx <= len(namer.md["args"]):
-                raise Unsupported("field index " + name)
-            return ("field", m.group(1), namer.md["args"][idx - 1]["fs"],
-                    "v" + m.group(2) if m.group(2) else "")
-        m = re.match(r"^cell_map_f(\d+)$", name)
-        if m:
+        role = namer.call_role(name)
+        if role is not None:
+            return role
+        if re.match(r"^cell_map_\w+$", name):
             return "cell_map", "0", "", ""
-        m = re.match(r"^ncpc_f\d+_f\d+_([xy])$", name)
+        m = re.match(r"^ncpc_\w+_([xy])$", name)
         if m:
             return "ncell_f_per_c_" + m.group(1), "0", "", ""
         if re.match(r"^ncell_f\d+$", name):
@@ -279,20 +302,20 @@ def classify(name, namer):
         if "_on_" in rest:
             fs, tgt = rest.split("_on_", 1)
             return m.group(1), "0", namer.space(fs), "on:" + namer.space(tgt)
-        mm = re.match(r"^(\w+)_(qr_?\w+)$", rest)
-        if mm:
-            # the quadrature suffix is the last component(s)
-            for cut in range(len(rest)):
-                if rest[cut] == "_" and rest[:cut] in namer.spaces:
-                    try:
-                        return (m.group(1), "0", namer.space(rest[:cut]),
-                                namer.shape(rest[cut + 1:]))
-                    except Unsupported:
-                        continue
+        for cut in range(len(rest)):
+            if rest[cut] == "_" and rest[:cut] in namer.spaces:
+                try:
+                    return (m.group(1), "0", namer.space(rest[:cut]),
+                            namer.shape(rest[cut + 1:]))
+                except Unsupported:
+                    continue
         raise Unsupported("basis name " + name)
     for pre in QR_ITEMS:
-        if name.startswith(pre + "_qr"):
-            return pre, "0", "", namer.shape(name[len(pre) + 1:])
+        if name.startswith(pre + "_"):
+            try:
+                return pre, "0", "", namer.shape(name[len(pre) + 1:])
+            except Unsupported:
+                continue
     raise Unsupported("argument name " + name)
 
 
@@ -330,7 +353,7 @@ def itemise_stub(text, md, code_name):
     return items
 
 
-def itemise_call(text, md, code_name):
+def itemise_call(text, md, code_name, names=None):
     '''Items of the (single) CALL <code_name>(...) of the generated PSy layer,
     typed by the declarations of the invoke subroutine.'''
     calls = [l for l in text.splitlines()
@@ -344,7 +367,7 @@ def itemise_call(text, md, code_name):
     if not m:
         raise Unsupported("invoke subroutine not found")
     decls = parse_decls(text[m.start():])
-    namer = Namer(md, "call")
+    namer = Namer(md, "call", names)
     items = []
     for expr in actuals:
         low = expr.lower().replace(" ", "")
@@ -391,14 +414,14 @@ def _describe(expr):
     return ty, kind.lower(), rank
 
 
-def itemise_psyir(names, exprs, md):
+def itemise_psyir(names, exprs, md, alg_names=None):
     '''Items of KernCallArgList: names = .arglist (texts), exprs =
     .psyir_arglist (the PSyIR expressions actually passed); roles from the
     names, type/kind/rank from the PSyIR expressions.'''
     if len(names) != len(exprs):
         raise Unsupported(f"arglist has {len(names)} names but "
                           f"{len(exprs)} PSyIR expressions")
-    namer = Namer(md, "call")
+    namer = Namer(md, "call", alg_names)
     items = []
     for text, expr in zip(names, exprs):
         low = text.lower().replace(" ", "")
